@@ -936,10 +936,10 @@ func TestCheck(t *testing.T) {
 
 	// ---- phase A: everything, in parallel: no panic + fix-point
 	giant := r.Violations() == 0
-	nflips := r.Pick(96, 600)
-	nblind := r.Pick(24, 200)
-	nrandom := r.Pick(96, 3000)
-	perMarksA := r.Pick(32, 200)
+	nflips := r.Pick(96, 8000)
+	nblind := r.Pick(24, 2500)
+	nrandom := r.Pick(96, 40000)
+	perMarksA := r.Pick(32, 400)
 	var total atomic.Int64
 	vh.Parallel(len(pairs), runtime.NumCPU(), func(pi int) {
 		p := pairs[pi]
